@@ -55,6 +55,11 @@ FORCE = {"wav16": "wav", "wav32": "wav", "flac": "flac", "aiff": "aiff", "npy": 
          "sph": "sph"}
 
 
+def _contig(a):
+    """a C-ordered copy with the shape kept (np.ascontiguousarray turns a zero-dimensional array into a one-element vector)"""
+    return np.array(a, order="C", copy=True)
+
+
 def gen_array(rng, kind):
     if kind in AUDIO:
         # (libsndfile cannot reopen a FLAC file without frames, and a SPHERE header needs sample_count >= 1)
@@ -70,6 +75,8 @@ def gen_array(rng, kind):
         return x
     nd = int(rng.integers(1, 4)) if kind != "raw" else 1
     shape = tuple(int(rng.choice([0, 1, 2, 5, 17])) if rng.random() < 0.15 else int(rng.integers(1, 40)) for _ in range(nd))
+    if kind != "raw" and rng.random() < 0.07:
+        shape = ()  # a zero-dimensional array is an array with a shape like any other
     dt = str(rng.choice(["float32", "float64", "int16", "int32", "uint8", "int64", "float16"]))
     if dt.startswith("float"):
         x = rng.standard_normal(shape).astype(dt)
@@ -108,7 +115,7 @@ def write(kind, x, path, rng, extra=None):
     elif kind == "pt":
         import torch
 
-        torch.save(torch.from_numpy(np.ascontiguousarray(x)), path)
+        torch.save(torch.from_numpy(_contig(x)), path)
     elif kind == "hdf5":
         import h5py
 
@@ -245,21 +252,21 @@ def roundtrip(mon, rec, rng, d, U):
             rec.count("reads_by_relative_name")
             try:
                 rel = os.path.basename(path) if rng.random() < 0.5 else os.path.join(".", os.path.basename(path))
-                mon.register(rel, expected=np.ascontiguousarray(want), info=info)
+                mon.register(rel, expected=_contig(want), info=info)
                 U.read_signal(rel, **kw)
             finally:
                 os.chdir(here)
         elif access == "name":
-            mon.register(path, expected=np.ascontiguousarray(want), info=info)
+            mon.register(path, expected=_contig(want), info=info)
             U.read_signal(path, **kw)
         elif access == "forced":
             p2 = os.path.join(sub, stem + ".data")
             shutil.copy(path, p2)
-            mon.register(p2, expected=np.ascontiguousarray(want), info=info)
+            mon.register(p2, expected=_contig(want), info=info)
             U.read_signal(p2, force_as=FORCE[kind], **kw)
         else:
             f = open(path, "rb") if (kind == "raw" or rng.random() < 0.5) else io.BytesIO(open(path, "rb").read())
-            mon.register(f, expected=np.ascontiguousarray(want), info=info)
+            mon.register(f, expected=_contig(want), info=info)
             try:
                 U.read_signal(f, force_as=FORCE[kind], **kw)
             finally:
@@ -269,7 +276,7 @@ def roundtrip(mon, rec, rng, d, U):
     # the webdataset hook on the same valid file (audio / array containers it can infer from the key)
     if kind not in ("raw",) and key is None and cast is None and rng.random() < 0.5:
         k = "sample/%s%s" % (stem, SUFFIX[kind])
-        mon.expect[("wds", k)] = dict(expected=np.ascontiguousarray(expected_of(kind, x)), kind=kind)
+        mon.expect[("wds", k)] = dict(expected=_contig(expected_of(kind, x)), kind=kind)
         try:
             U.wds_read_signal(k, open(path, "rb").read())
         except Exception:
@@ -294,7 +301,7 @@ def sequential_npy(mon, rec, rng, d, U):
     try:
         for j, a in enumerate(arrs):
             mon.expect.clear()
-            mon.register(f, expected=np.ascontiguousarray(a), info=dict(kind="npy", shape=list(a.shape), stored_dtype=str(a.dtype), channels=1, entries=len(arrs), cast=None,
+            mon.register(f, expected=_contig(a), info=dict(kind="npy", shape=list(a.shape), stored_dtype=str(a.dtype), channels=1, entries=len(arrs), cast=None,
                                                                         access="stream", key=None, name="array %d of %d on one stream (offset %d)" % (j, len(arrs), f.tell())))
             try:
                 U.read_signal(f, force_as="npy")
@@ -326,6 +333,22 @@ def error_contract(mon, rec, rng, d, U):
     for bad in ("", " ", "NPY", "npy ", "Wav"):
         cases.append((p + ".npy", {"force_as": bad}, ValueError, "path with unknown force_as %r" % bad))
         cases.append((io.BytesIO(open(p + ".npy", "rb").read()), {"force_as": bad}, ValueError, "stream with unknown force_as %r" % bad))
+    # names of formats that libsndfile knows but that are not among the documented force_as values (config.SOUNDFILE_SUPPORTED_FILE_TYPES
+    # lists the audio types that are): unknown values like any other, on an audio file that soundfile could well decode
+    try:
+        import soundfile
+        from pydrobert.speech import config as CFG
+
+        documented = {"table", "wav", "hdf5", "npy", "npz", "pt", "sph", "kaldi", "file", "soundfile"} | set(CFG.SOUNDFILE_SUPPORTED_FILE_TYPES)
+        others = sorted({f.lower() for f in soundfile.available_formats()} - documented)
+        fl = os.path.join(d, "tone.flac")
+        soundfile.write(fl, (np.arange(64, dtype=np.int16) * 100).reshape(-1, 1), 8000, subtype="PCM_16", format="FLAC")
+        for bad in others[:: max(1, len(others) // 8)]:
+            cases.append((fl, {"force_as": bad}, ValueError, "audio file by name with force_as %r (a libsndfile format that is not a documented value)" % bad))
+            cases.append((io.BytesIO(open(fl, "rb").read()), {"force_as": bad}, ValueError, "audio stream with force_as %r (a libsndfile format that is not a documented value)" % bad))
+        rec.count("undocumented_libsndfile_format_names_as_force_as", len(others[:: max(1, len(others) // 8)]))
+    except ImportError:
+        pass
     q2 = os.path.join(d, "file.dat")
     shutil.copy(p + ".npy", q2)
     cases.append((q2, {"force_as": ""}, ValueError, "unrecognised suffix with unknown force_as ''"))
@@ -377,7 +400,7 @@ def rewritten_files(mon, rec, rng, d, U):
             key = write(kind, x, path, rng)
             kw = {"dtype": np.int16, "force_as": "file"} if kind == "raw" else {}
             info = dict(kind=kind, shape=list(x.shape), stored_dtype=str(x.dtype), channels=1, entries=1, cast=None, access="name", key=key, name=os.path.basename(path))
-            mon.register(path, expected=np.ascontiguousarray(expected_of(kind, x)), info=info)
+            mon.register(path, expected=_contig(expected_of(kind, x)), info=info)
             try:
                 first = U.read_signal(path, **kw)
             except Exception:
